@@ -324,3 +324,133 @@ Proof.
   change (repeat 32%N k) with (spaces k). rewrite effect_inert_prefix by apply inert_spaces.
   rewrite effect_rstrip. apply effect_join. apply Forall_app. split; apply inert_spaces.
 Qed.
+
+(* ================= D. scanner states that have the same effect ================= *)
+(* the same tags, each behind a text that ends with a backslash or not alike; the same candidate; pending text alike *)
+Definition seg_sim (x y : str * tag) : Prop := snd x = snd y /\ ends_with_bsl (fst x) = ends_with_bsl (fst y).
+Definition sim (s1 s2 : lexst) : Prop :=
+  Forall2 seg_sim (l_done s1) (l_done s2) /\ ends_with_bsl (l_cur s1) = ends_with_bsl (l_cur s2) /\ l_cand s1 = l_cand s2.
+Lemma sim_refl s : sim s s.
+Proof. split; [|auto]. induction (l_done s); constructor; [split; reflexivity|assumption]. Qed.
+Lemma sim_sym s1 s2 : sim s1 s2 -> sim s2 s1.
+Proof.
+  intros (H1 & H2 & H3). split; [|auto]. clear H2 H3. induction H1; constructor; [|assumption]. destruct H; split; auto.
+Qed.
+Lemma sim_trans s1 s2 s3 : sim s1 s2 -> sim s2 s3 -> sim s1 s3.
+Proof.
+  intros (H1 & H2 & H3) (K1 & K2 & K3). split; [|split; congruence]. clear H2 H3 K2 K3.
+  revert K1. generalize (l_done s3). induction H1; intros l3 K; inversion K; subst; constructor; [|auto].
+  destruct H, H3. split; congruence.
+Qed.
+Lemma ends_app_cong a a' b : ends_with_bsl a = ends_with_bsl a' -> ends_with_bsl (a ++ b) = ends_with_bsl (a' ++ b).
+Proof. intros H. rewrite !ends_app. destruct b; auto. Qed.
+Lemma Forall2_snoc {X Y} (R : X -> Y -> Prop) l l' x y : Forall2 R l l' -> R x y -> Forall2 R (l ++ [x]) (l' ++ [y]).
+Proof. intros H. induction H; intros Hr; cbn [app]; constructor; auto. Qed.
+Lemma sim_step s1 s2 c : sim s1 s2 -> sim (lex_step s1 c) (lex_step s2 c).
+Proof.
+  intros (H1 & H2 & H3). unfold lex_step. rewrite <- H3.
+  assert (Hfail : forall X k, sim {| l_done := l_done s1; l_cur := l_cur s1 ++ X; l_cand := k |}
+                                  {| l_done := l_done s2; l_cur := l_cur s2 ++ X; l_cand := k |}).
+  { intros X k. split; [exact H1|]. split; [now apply ends_app_cong|reflexivity]. }
+  assert (Hgo : forall k, sim {| l_done := l_done s1; l_cur := l_cur s1; l_cand := k |}
+                              {| l_done := l_done s2; l_cur := l_cur s2; l_cand := k |}).
+  { intros k. split; [exact H1|]. split; [exact H2|reflexivity]. }
+  assert (Hemit : forall T, sim {| l_done := l_done s1 ++ [(l_cur s1, T)]; l_cur := []; l_cand := CText |}
+                                {| l_done := l_done s2 ++ [(l_cur s2, T)]; l_cur := []; l_cand := CText |}).
+  { intros T. split; [|split; reflexivity]. cbn [l_done]. apply Forall2_snoc; [exact H1|]. split; [reflexivity|exact H2]. }
+  destruct (N.eqb c LT); [apply Hfail|]. destruct (l_cand s1) as [| | |cl nm].
+  - apply Hfail.
+  - destruct (N.eqb c SLASH); [apply Hgo|]. destruct (tag_start c); [apply Hgo|apply Hfail].
+  - destruct (N.eqb c GT); [apply Hemit|]. destruct (tag_start c); [apply Hgo|apply Hfail].
+  - destruct (N.eqb c GT); [apply Hemit|]. destruct (tag_char c); [apply Hgo|apply Hfail].
+Qed.
+Lemma sim_fold m : forall s1 s2, sim s1 s2 -> sim (fold_left lex_step m s1) (fold_left lex_step m s2).
+Proof. induction m as [|c r IH]; intros s1 s2 H; cbn [fold_left]; [exact H|]. apply IH, sim_step, H. Qed.
+Lemma esc_of_false first pre : esc_of false first pre = ends_with_bsl pre.
+Proof. unfold esc_of. destruct pre; [now rewrite andb_false_r|reflexivity]. Qed.
+Lemma sim_segs sty : forall d1 d2, Forall2 seg_sim d1 d2 -> forall first first' sk,
+  segs_stack sty false first d1 sk = segs_stack sty false first' d2 sk.
+Proof.
+  induction 1 as [|[p1 t1] [p2 t2] r1 r2 [Ht Hp] Hr IH]; intros first first' sk; cbn [segs_stack]; [reflexivity|].
+  cbn [fst snd] in Ht, Hp. subst t2. rewrite !esc_of_false, Hp.
+  destruct (tag_stack sty (ends_with_bsl p2) t1 sk); cbn [bind]; [apply IH|reflexivity].
+Qed.
+(* equivalent states at the end: the same effect *)
+Lemma sim_effect sty a b sk : sim (fold_left lex_step a lex_init) (fold_left lex_step b lex_init) ->
+  effect sty false a sk = effect sty false b sk.
+Proof. intros (H & _). unfold effect. now apply sim_segs. Qed.
+
+(* ---- blanks against blanks, and a line break put in where nothing is cut ---- *)
+Lemma inert_fold st : forall r, Forall inert r -> r <> [] ->
+  exists x, fold_left lex_step r st = mk (l_done st) (l_cur st ++ raw_of (l_cand st) ++ x) CText /\ ends_with_bsl x = false /\ x <> [].
+Proof.
+  induction r as [|c r IH] using rev_ind; intros Hr Hne; [congruence|].
+  apply Forall_app in Hr as [Hr Hc]. inversion Hc as [|? ? Hci _]; subst. rewrite fold_left_app. cbn [fold_left].
+  destruct r as [|c0 r0].
+  - cbn [fold_left]. rewrite (inert_step st c Hci). exists [c]. split; [reflexivity|]. split; [|discriminate].
+    change [c] with ([] ++ [c]). rewrite ends_snoc. destruct Hci as (_ & _ & _ & Hb & _). now apply N.eqb_neq.
+  - destruct (IH Hr ltac:(discriminate)) as (x & -> & _ & _). rewrite inert_step by exact Hci.
+    cbn [l_done l_cur l_cand raw_of mk]. exists (x ++ [c]). rewrite !app_nil_l, <- !app_assoc. split; [reflexivity|].
+    split; [|destruct x; discriminate]. rewrite ends_snoc. destruct Hci as (_ & _ & _ & Hb & _). now apply N.eqb_neq.
+Qed.
+Lemma ends_false_app a x : ends_with_bsl x = false -> x <> [] -> ends_with_bsl (a ++ x) = false.
+Proof. intros H Hx. rewrite ends_app. destruct x; [congruence|exact H]. Qed.
+(* two runs of blanks, neither empty *)
+Lemma sim_blanks s1 s2 r1 r2 : sim s1 s2 -> Forall inert r1 -> r1 <> [] -> Forall inert r2 -> r2 <> [] ->
+  sim (fold_left lex_step r1 s1) (fold_left lex_step r2 s2).
+Proof.
+  intros (H1 & H2 & H3) I1 N1 I2 N2. destruct (inert_fold s1 r1 I1 N1) as (x1 & -> & E1 & X1).
+  destruct (inert_fold s2 r2 I2 N2) as (x2 & -> & E2 & X2). split; [exact H1|]. split; [|reflexivity].
+  cbn [l_cur mk]. rewrite !app_assoc, !ends_false_app; auto.
+Qed.
+
+(* the character y0 read on the state st neither continues a pending tag, nor is it a "<" directly behind a backslash *)
+Definition continues (k : cand) (c : N) : bool :=
+  match k with
+  | CText => false
+  | COpen => N.eqb c SLASH || tag_start c
+  | CSlash => N.eqb c GT || tag_start c
+  | CName _ _ => N.eqb c GT || tag_char c
+  end.
+Definition safe_cut (st : lexst) (y0 : N) : bool :=
+  negb (continues (l_cand st) y0) &&
+  negb (N.eqb y0 LT && match l_cand st with CText => ends_with_bsl (l_cur st) | _ => false end).
+Lemma tagish_not_bsl c : tagish c -> c <> BSL.
+Proof. intros [->|[->|[->|H]]]; try discriminate. intros ->. vm_compute in H. discriminate. Qed.
+Lemma raw_ends st : lex_tagish st -> ends_with_bsl (raw_of (l_cand st)) = false.
+Proof.
+  intros [_ H]. destruct (raw_of (l_cand st)) as [|c r] using rev_ind; [reflexivity|].
+  rewrite ends_snoc. apply Forall_app in H as [_ H]. inversion H; subst. apply N.eqb_neq. now apply tagish_not_bsl.
+Qed.
+Lemma raw_nonempty k : k <> CText -> raw_of k <> [].
+Proof. destruct k; [congruence|discriminate|discriminate|discriminate]. Qed.
+
+(* reading y0 directly, or behind blanks put in front of it *)
+Lemma sim_cut s1 s2 y0 r : sim s1 s2 -> lex_tagish s1 -> safe_cut s1 y0 = true -> Forall inert r ->
+  sim (lex_step s1 y0) (lex_step (fold_left lex_step r s2) y0).
+Proof.
+  intros Hs Ht Hsafe Hr. destruct r as [|c0 r0]; [now apply sim_step|].
+  destruct (inert_fold s2 (c0 :: r0) Hr ltac:(discriminate)) as (x & -> & Ex & Xne).
+  destruct Hs as (H1 & H2 & H3). unfold safe_cut in Hsafe. apply andb_prop in Hsafe as [Hc Hl].
+  apply negb_true_iff in Hc. apply negb_true_iff in Hl. pose proof (raw_ends s1 Ht) as Hraw.
+  unfold mk. destruct (N.eqb_spec y0 LT) as [->|Hne].
+  - assert (lex_step s1 LT = mk (l_done s1) (l_cur s1 ++ raw_of (l_cand s1)) COpen) as ->.
+    { unfold lex_step, mk. change (N.eqb LT LT) with true. cbv iota. now rewrite app_nil_r. }
+    assert (lex_step {| l_done := l_done s2; l_cur := l_cur s2 ++ raw_of (l_cand s2) ++ x; l_cand := CText |} LT
+            = mk (l_done s2) (l_cur s2 ++ raw_of (l_cand s2) ++ x) COpen) as ->.
+    { unfold lex_step, mk. change (N.eqb LT LT) with true. cbv iota. cbn [l_done l_cur l_cand raw_of]. now rewrite !app_nil_r. }
+    split; [exact H1|]. split; [|reflexivity]. cbn [l_cur mk].
+    rewrite (app_assoc (l_cur s2)), (ends_false_app _ x Ex Xne).
+    destruct (l_cand s1) eqn:Ek; [cbn [raw_of]; rewrite app_nil_r; exact Hl| | |];
+      (apply ends_false_app; [exact Hraw|discriminate]).
+  - assert (lex_step s1 y0 = mk (l_done s1) (l_cur s1 ++ raw_of (l_cand s1) ++ [y0]) CText) as ->.
+    { unfold lex_step, mk. apply N.eqb_neq in Hne. rewrite Hne. destruct (l_cand s1) as [| | |cl nm]; cbn [continues] in Hc.
+      - reflexivity.
+      - apply orb_false_elim in Hc as [-> ->]. reflexivity.
+      - apply orb_false_elim in Hc as [-> ->]. reflexivity.
+      - apply orb_false_elim in Hc as [-> ->]. reflexivity. }
+    assert (lex_step {| l_done := l_done s2; l_cur := l_cur s2 ++ raw_of (l_cand s2) ++ x; l_cand := CText |} y0
+            = mk (l_done s2) ((l_cur s2 ++ raw_of (l_cand s2) ++ x) ++ [y0]) CText) as ->.
+    { unfold lex_step, mk. apply N.eqb_neq in Hne. rewrite Hne. cbn [l_done l_cur l_cand raw_of]. reflexivity. }
+    split; [exact H1|]. split; [|reflexivity]. cbn [l_cur mk]. now rewrite !app_assoc, !ends_snoc.
+Qed.
